@@ -12,6 +12,8 @@ import (
 	"net/http/httptest"
 	"strconv"
 	"strings"
+	"sync/atomic"
+	"time"
 
 	"github.com/vipnode/vipnode/v2/jsonrpc2"
 )
@@ -42,11 +44,27 @@ func httpExchange(t []string) (extra []string, out string) {
 	if err := hs.Server.Register("x_", HTTPPadRecv{}); err != nil {
 		fatal(err)
 	}
-	var respLen int
+	// the number of reply bytes the server produced, reported once its handler is through (the client may have its
+	// answer - or have given up on an oversized reply - before that)
+	written := make(chan int, 4)
+	drop := geti("drop") == 1
+	var handled int32
 	srv := httptest.NewServer(http.HandlerFunc(func(w http.ResponseWriter, r *http.Request) {
+		if drop && atomic.AddInt32(&handled, 1) == 1 {
+			// the connection is lost after the server has read and handled the message, before the reply gets out
+			rec := httptest.NewRecorder()
+			hs.ServeHTTP(rec, r)
+			if hj, ok := w.(http.Hijacker); ok {
+				if conn, _, err := hj.Hijack(); err == nil {
+					conn.Close()
+				}
+			}
+			written <- 0
+			return
+		}
 		cw := &countingWriter{ResponseWriter: w}
 		hs.ServeHTTP(cw, r)
-		respLen = cw.n
+		written <- cw.n
 	}))
 	defer srv.Close()
 	payload := strings.Repeat("q", reqN)
@@ -86,6 +104,22 @@ func httpExchange(t []string) (extra []string, out string) {
 	} else {
 		svc := &jsonrpc2.HTTPService{Endpoint: srv.URL, MaxContentLength: int64(maxc)}
 		err = svc.Call(context.Background(), &got, "x_pad", payload, respN)
+	}
+	respLen := -1
+	select {
+	case respLen = <-written:
+	case <-time.After(10 * time.Second):
+	}
+	if respLen < 0 {
+		return extra, "err handler-never-finished"
+	}
+	if drop {
+		// one message was written: it is read and handled exactly once, whatever the client makes of the lost reply
+		time.Sleep(30 * time.Millisecond)
+		if err == nil {
+			return extra, fmt.Sprintf("ok handled=%d", atomic.LoadInt32(&handled))
+		}
+		return extra, fmt.Sprintf("err handled=%d", atomic.LoadInt32(&handled))
 	}
 	extra = append(extra, "resplen="+strconv.Itoa(respLen))
 	if err != nil {
@@ -129,4 +163,5 @@ func genHTTP(r *rand.Rand, idx int, emit func(string)) {
 		}
 		emit(fmt.Sprintf("http req=%d resp=%d chunked=%d maxs=%d maxc=%d", req, resp, chunked, maxs, maxc))
 	}
+	emit(fmt.Sprintf("http req=%d resp=%d chunked=0 maxs=0 maxc=0 drop=1", sizes[r.Intn(5)], sizes[r.Intn(5)]))
 }
